@@ -67,6 +67,8 @@ def run(report, tier, seed):
         xlabs = codeclab.prepare_labs(sc, ybin, gens, ndjson=False, sanitize=False)
         # records with interior padding: a whole-value shortcut of one back end would leave the common plan
         xlabs.append(codeclab.Lab(sc, ybin, 3001, modelgen.Gen(seed * 100129 + 3001), pkg=modelgen.padding_package(), ndjson=False).prepare())
+        # arrays of every element encoding: shape, rank and element order are part of the plan, whatever layout a language keeps the array in
+        xlabs.append(codeclab.Lab(sc, ybin, 3003, modelgen.Gen(seed * 100129 + 3003), pkg=modelgen.arrays_package(), ndjson=False).prepare())
         if not quick:
             xlabs.append(codeclab.Lab(sc, ybin, 3000, modelgen.Gen(seed * 100129 + 3000), pkg=modelgen.directed_package(), ndjson=False).prepare())
         for lab in xlabs:
